@@ -477,7 +477,25 @@ class ModelRegistry:
         raise Unsupported('hash()')
 
     def sorted_(self, it, ca):
-        raise Unsupported('sorted()')
+        """sorted(xs, key=...): some permutation of xs; the order the key induces is NOT modelled (the key function is
+        assumed pure and total and is not evaluated), so nothing about the position of elements can be proved from it"""
+        st = it.st
+        seq = it.iter_seq(ca.args[0])
+        if isinstance(seq, tuple):
+            if not any(is_symbolic(x) for x in seq) and 'key' not in ca.kwargs:
+                return it.new_list(sorted(seq))
+            seq = self.to_symseq(it, seq)
+        used(it, 'sorted(): an arbitrary permutation of its input; the key order is not modelled')
+        out = SymSeq.fresh(st, 'sorted')
+        to = st.fresh_func('sorted_to', IntS, IntS)
+        back = st.fresh_func('sorted_back', IntS, IntS)
+        i = z3.Int('si')
+        st.assume(out.len == seq.len)
+        # only "every output element is an input element" is stated (one direction keeps E-matching terminating; the
+        # other direction would only be needed to prove things about code that sorts, which the pinned tree does not)
+        st.assume(FA([i], z3.Implies(z3.And(i >= 0, i < out.len), z3.And(
+            back(i) >= 0, back(i) < seq.len, out.at(i) == seq.at(back(i)))), patterns=[out.at(i)]))
+        return it.new_list(out)
 
     def type_(self, it, ca):
         r = self._try('type_', it, ca)
